@@ -217,7 +217,7 @@ def _describe_tokens(desc, facts):
 # ------------------------------------------------------------------ queries
 
 FULL_SWEEP_VARIANTS = ('text-slide0x1000', 'data-slide0x1000', 'both-slides')
-MUTS = ['drop', 'insert', 'replace', 'truncate', 'extend', 'case', 'space', 'double']
+MUTS = ['drop', 'insert', 'replace', 'truncate', 'extend', 'case', 'space', 'double', 'path-suffix', 'path-suffix', 'vendor', 'generic-args']
 
 
 def near_miss(name, rng):
@@ -242,6 +242,22 @@ def near_miss(name, rng):
         b = bytearray(b' ') + b if rng.below(2) else b + bytearray(b' ')
     elif kind == 'double' and b:
         b.insert(i, b[i])
+    elif kind == 'path-suffix':                      # a/b/c.F -> b/c.F, c.F (what a "short package name" fallback would accept)
+        parts = bytes(b).split(b'/')
+        if len(parts) > 1 and b'[' not in parts[0]:
+            b = bytearray(b'/'.join(parts[1 + rng.below(len(parts) - 1):]))
+        else:
+            b = bytearray(b'x/') + b
+    elif kind == 'vendor':
+        b = b[7:] if bytes(b).startswith(b'vendor/') else bytearray(b'vendor/') + b
+    elif kind == 'generic-args':                      # pkg.G[go.shape.int] -> pkg.G[int], pkg.G[...], pkg.G
+        i, j = bytes(b).find(b'['), bytes(b).rfind(b']')
+        if 0 <= i < j:
+            inner = bytes(b[i + 1:j])
+            alt = rng.choice([inner.replace(b'go.shape.', b''), b'...', b'go.shape.uint8', b'int', None])
+            b = b[:i] + b[j + 1:] if alt is None else b[:i + 1] + bytearray(alt) + b[j:]
+        else:
+            b += b'[go.shape.int]'
     if bytes(b) == bytes(name):
         b += b'~'
     return kind, bytes(b)
@@ -268,8 +284,9 @@ def make_queries(desc, comp, rng, full, nmiss, sample=400):
     if not fn:     # unreadable / PIE: the file's tables are not visible to the check either; ask for what must exist
         q += [('f:' + esc(n), 'func') for n in gen_f] + [('v:' + esc(n), 'sym') for n in gen_v] + [('x:' + esc(n), 'expose') for n in gen_f[:50]]
     base = (fn or gen_f) + (sy or gen_v)
-    for _ in range(nmiss):
-        n = base[rng.below(len(base))]
+    generic = [n for n in fn if b'[' in n and n.startswith(PKG.encode())] or [n for n in fn if b'[' in n]
+    for k in range(nmiss):
+        n = generic[rng.below(len(generic))] if generic and k % 12 == 0 else base[rng.below(len(base))]
         kind, m = near_miss(n, rng)
         q.append((rng.choice(['f:', 'v:', 'x:', 'f:', 'v:']) + esc(m), 'miss-' + kind))
     q += [('f:', 'miss-empty'), ('v:', 'miss-empty'), ('x:', 'miss-empty'), ('f:' + esc(b'a' * 5000), 'miss-long'), ('v:' + esc(b'\x00'), 'miss-nul'),
@@ -642,6 +659,21 @@ def conc_histories(cases, comp, rng, tier):
                 for j, edit in enumerate(edits):
                     h['queries'].insert(n + (j * 2 * n + rep) % (len(h['queries']) - n), (edit, 'allfuncs'))
                 hs.append(h)
+    # steady state: every goroutine keeps looking up ITS OWN variables (two each, alternating), hundreds of times, all at once; the
+    # answers are judged against &v.  Lookups are read-only on the tables, so nothing one goroutine asks may change another's answer.
+    gen_v = [x.encode() for x in comp['vars']]
+    for case in cases:
+        if case['id'] not in ('sym.as-linked', 'ext.as-linked') or not case['desc']['syms']:
+            continue
+        for n in (4, 16):
+            r = rng.fork(f'q-{case["id"]}.convars{n}')
+            mine = [gen_v[r.below(len(gen_v))] for _ in range(2 * n)]
+            rounds = 150 if tier == 'quick' else 1500
+            h = dict(case)
+            h['id'] = f'{case["id"]}.convars{n}'
+            h['g'] = n
+            h['queries'] = [('v:' + esc(mine[(i % n) * 2 + (i // n) % 2]), 'sym-own') for i in range(n * rounds)]
+            hs.append(h)
     return hs
 
 
